@@ -454,7 +454,7 @@ class HTTPConnection(_HTTPConnection):
                 if isinstance(chunk, str):
                     chunk = chunk.encode("utf-8")
                 if chunked:
-                    self.send(b"%x\r\n%b\r\n" % (len(chunk), chunk))
+                    self.send(b"%x\r\n%b\r\n" % (memoryview(chunk).nbytes, chunk))
                 else:
                     self.send(chunk)
 
